@@ -533,6 +533,7 @@ func main() {
 			cs = append(cs, map[string]string{"policy": c.Policy, "ttl": c.ID})
 		}
 		result["configs"] = cs
+		result["scripts"] = initScripts(&infra)
 	case "sweep":
 		rnd := rand.New(rand.NewSource(*seed))
 		var trace []Event
@@ -582,6 +583,9 @@ func main() {
 			}
 		}
 		result["cases"] = cases
+		t0 := time.Now()
+		result["init_cases"] = w.initSweep(rnd, *full, &infra)
+		result["init_sweep_ms"] = time.Since(t0).Milliseconds()
 		if *tracePath != "" {
 			f, _ := os.Create(*tracePath)
 			enc := json.NewEncoder(f)
